@@ -62,7 +62,8 @@ def mat_json(m):
     return [[core.frac_str(x) for x in r] for r in m]
 
 
-def mat_close(got, want, tol=1e-9):
+def mat_close(got, want, tol=None):
+    tol = core.DEFAULT_TOL if tol is None else tol
     got = np.asarray(got, dtype=float)
     w = np.array([[float(x) for x in r] for r in want], dtype=float).reshape(got.shape) if got.size else np.zeros(got.shape)
     if got.shape != w.shape:
@@ -88,6 +89,7 @@ def make_noises(rng, d):
 
 def compile_ekf(d, process, sensor, cal, rng=None, cse=True, filtering=None, max_dt=0.1, container="set"):
     from formak import python
+    core.set_tolerance(getattr(d, "transcend", False))
     m = fk.ui_model(d, rng, container)
     sensors = {k: dict(rd) for k, rd in d.sensors.items()}
     with fk.quiet():
